@@ -1956,8 +1956,10 @@ class FileBuilder:
             FileBuilder._try_to_remove_file(filename)
         FileBuilder._remove_empty_dirs(list(dirs_to_remove))
 
-        FileBuilder._create_dirs(self._old_cache.created_dirs())
+        # Restore the files first, so that we don't create a directory where
+        # there used to be a regular file
         self._backups.restore_all()
+        FileBuilder._create_dirs(self._old_cache.created_dirs())
         logger.info('Rolled back build operation')
 
     def _build(self, cache_filename, func, args, kwargs):
